@@ -87,6 +87,18 @@ Theorem holdout_exact :
 Proof. exact (@run_holdout_exact_l). Qed.
 Print Assumptions holdout_exact.
 
+(* a user without interactions has an empty row, which carries no fields (col_of = None): LastN / LastFrac with a
+   non-negative size hold out nothing and do not ask for the ordering field *)
+Theorem holdout_empty_row :
+  forall (F : Type) (rm : Z -> F -> option Z) (h : holdout F) d,
+  match h with
+  | HLastN n fld => (0 <= n)%Z -> run_holdout rm h [] d = HOk []
+  | HLastFrac f fld => forall n, rm 0%Z f = Some n -> (0 <= n)%Z -> run_holdout rm h [] d = HOk []
+  | _ => True
+  end.
+Proof. exact (@run_holdout_empty_row_l). Qed.
+Print Assumptions holdout_empty_row.
+
 Theorem holdout_selects_rows :
   forall (F : Type) (rm : Z -> F -> option Z) (h : holdout F) row d idx,
   hdraw_ok rm h row d -> run_holdout rm h row d = HOk idx -> valid_idx (length row) idx.
